@@ -183,6 +183,8 @@ class Vector(MutableSequence[TScalar]):
             else:
                 # Assigning an empty Iterable to a slice is valid, so we don't check for empty.
                 # If an empty Iterable is assigned to a slice, that slice is deleted.
+                # Iterate over the input only once: it may be a one-shot iterator.
+                value = list(value)
                 for subval in value:
                     if not isinstance(subval, self._value_type):
                         raise self._create_value_mismatch_exception(subval)
